@@ -585,19 +585,105 @@ theorem runFrom_sim (k : Consts) (bs : List (List CKw)) (a b : State) (h : Sim a
 
 /-! ### the commutation: closing a report step early -/
 
-theorem connsOf_setKey (c : ConnMap) (n w : String) (v : List Conn) :
-    connsOf (setKey c n v) w = if w = n then v else connsOf c w := by
-  unfold connsOf
-  rw [lookup_setKey]
-  by_cases hw : w = n <;> simp [hw]
+theorem lookup_modify {α} (m : List (String × α)) (k w : String) (f : α → α) :
+    lookup (modify m k f) w = if w = k then (lookup m k).map f else lookup m w := by
+  induction m with
+  | nil => simp [modify, lookup]
+  | cons x r ih =>
+    obtain ⟨k', v'⟩ := x
+    have ih' : lookup (List.map (fun x : String × α => if x.1 = k then (x.1, f x.2) else (x.1, x.2)) r) w =
+        if w = k then (lookup r k).map f else lookup r w := by
+      have := ih; simp only [modify] at this; exact this
+    simp only [modify, List.map_cons]
+    by_cases hk : k' = k
+    · subst hk
+      simp only [if_true, lookup]
+      by_cases hw : k' = w
+      · subst hw; simp
+      · have hw' : ¬ w = k' := fun h => hw h.symm
+        simp only [hw, hw', if_false]
+        rw [ih']; simp [hw']
+    · simp only [hk, if_false, lookup]
+      by_cases hw : k' = w
+      · subst hw
+        have : ¬ k' = k := hk
+        simp [this]
+      · simp only [hw, if_false]
+        rw [ih']
+
+theorem connsOf_rebuild (c : ConnMap) (n w : String) (f : Conn → Conn) :
+    connsOf (rebuild c n f) w = if w = n then (connsOf c n).map f else connsOf c w := by
+  unfold connsOf rebuild
+  rw [lookup_modify]
+  by_cases hw : w = n
+  · simp only [hw, if_true]
+    cases lookup c n <;> rfl
+  · simp [hw]
 
 theorem rebuild_isEmpty (c : ConnMap) (n w : String) (f : Conn → Conn) :
     (connsOf (rebuild c n f) w).isEmpty = (connsOf c w).isEmpty := by
-  unfold rebuild
-  rw [connsOf_setKey]
+  rw [connsOf_rebuild]
   by_cases hw : w = n
   · subst hw; simp
   · simp [hw]
+
+/-- Maps of the connection lists that act on different fields commute. -/
+theorem rebuild_comm (c : ConnMap) (n m : String) (f g : Conn → Conn) (h : ∀ x, f (g x) = g (f x)) :
+    rebuild (rebuild c n f) m g = rebuild (rebuild c m g) n f := by
+  unfold rebuild modify
+  rw [List.map_map, List.map_map]
+  apply List.map_congr_left
+  intro x _
+  obtain ⟨k', v⟩ := x
+  simp only [Function.comp]
+  have hfg : List.map g (List.map f v) = List.map f (List.map g v) := by
+    rw [List.map_map, List.map_map]; apply List.map_congr_left; intro y _; exact (h y).symm
+  by_cases h1 : k' = n
+  · by_cases h2 : k' = m
+    · subst h1; subst h2; simp [hfg]
+    · subst h1; simp [h2]
+  · by_cases h2 : k' = m
+    · subst h2; simp [h1]
+    · simp [h1, h2]
+
+theorem foldl_rebuild_comm {β : Type} (gs : List β) (key : β → String) (G : β → Conn → Conn) (c : ConnMap) (n : String)
+    (f : Conn → Conn) (h : ∀ v x, f (G v x) = G v (f x)) :
+    gs.foldl (fun cm v => rebuild cm (key v) (G v)) (rebuild c n f) =
+      rebuild (gs.foldl (fun cm v => rebuild cm (key v) (G v)) c) n f := by
+  induction gs generalizing c with
+  | nil => rfl
+  | cons x r ih =>
+    simp only [List.foldl_cons]
+    rw [rebuild_comm c n (key x) f (G x) (h x), ih]
+
+theorem foldl_foldl_rebuild_comm {β : Type} (gs : List β) (key : β → String) (G : β → Conn → Conn) (ns : List String)
+    (f : Conn → Conn) (c : ConnMap) (h : ∀ v x, f (G v x) = G v (f x)) :
+    gs.foldl (fun cm v => rebuild cm (key v) (G v)) (ns.foldl (fun cm w => rebuild cm w f) c) =
+      ns.foldl (fun cm w => rebuild cm w f) (gs.foldl (fun cm v => rebuild cm (key v) (G v)) c) := by
+  induction ns generalizing c with
+  | nil => rfl
+  | cons w r ih =>
+    simp only [List.foldl_cons]
+    rw [ih (rebuild c w f), foldl_rebuild_comm gs key G c w f h]
+
+theorem allShut_map (cs : List Conn) (f : Conn → Conn) (hf : ∀ x, (f x).state = x.state) : allShut (cs.map f) = allShut cs := by
+  unfold allShut
+  congr 1
+  · simp
+  · rw [List.all_map]
+    apply List.all_congr rfl
+    intro x; simp [Function.comp, hf x]
+
+theorem allShut_foldl_rebuild (ns : List String) (f : Conn → Conn) (hf : ∀ x, (f x).state = x.state) (c : ConnMap) (w : String) :
+    allShut (connsOf (ns.foldl (fun cm n => rebuild cm n f) c) w) = allShut (connsOf c w) := by
+  induction ns generalizing c with
+  | nil => rfl
+  | cons n r ih =>
+    simp only [List.foldl_cons]
+    rw [ih, connsOf_rebuild]
+    by_cases hw : w = n
+    · subst hw; simp only [if_true]; exact allShut_map _ f hf
+    · simp [hw]
 
 /-- The deferred WPIMULT factors change no connection list from empty to non-empty or back. -/
 theorem applyGlobal_isEmpty (c : ConnChan) (w : String) :
@@ -644,35 +730,78 @@ theorem Rel_of_sim_close {a s : State} (h : Sim a (closeBlock s)) : Rel a s := b
   · exact Or.inr hc
   · simp only [hc, if_false]; exact Or.inl trivial
 
-theorem Rel_stepR (k : Consts) (m : List String) (a b : State) (r : ROp) (hnc : r.isConn = false) (h : Rel a b) :
-    ExRel Rel (stepR k m a r) (stepR k m b r) := by
-  unfold stepR
-  simp only [hnc, Bool.false_eq_true, if_false]
-  rw [h.emp_eq, h.p]
-  cases hP : stepP k m (emp b.c) b.p r with
-  | error e => exact rfl
-  | ok v =>
-    obtain ⟨p', ws⟩ := v
-    refine ⟨rfl, h.cm, h.g, fun w => ?_⟩
-    simp only []
-    rcases h.st w with he | ⟨hn, hs⟩
-    · exact Or.inl (statusOf_applyWrites_congr _ _ _ _ he)
-    · refine Or.inr ⟨stepP_names k m _ b.p r p' ws hP w ?_, hs⟩
-      rw [← h.p]; exact hn
+/-- Records a body may contain: property-channel operations and COMPLUMP (which changes completion
+numbers only).  Excluded is exactly the property's per-step exception: COMPDAT, WELOPEN on
+connections (they open/shut connections) and WPIMULT. -/
+def ROp.benign (r : ROp) : Bool := !r.isConn || r.isLump
 
+theorem lump_comm (i j k1 k2 n : Nat) (v : String × Val) (x : Conn) :
+    (fun x : Conn => if (matchCoord i x.i && matchCoord j x.j && (k1 = 0 || x.k + 1 ≥ k1) && (k2 = 0 || x.k + 1 ≤ k2)) = true
+        then { x with complnum := n } else x) ((fun x : Conn => { x with pimult := vmul x.pimult v.2 }) x) =
+    (fun x : Conn => { x with pimult := vmul x.pimult v.2 })
+      ((fun x : Conn => if (matchCoord i x.i && matchCoord j x.j && (k1 = 0 || x.k + 1 ≥ k1) && (k2 = 0 || x.k + 1 ≤ k2)) = true
+        then { x with complnum := n } else x) x) := by
+  simp only []
+  split <;> rfl
+
+theorem Rel_stepR (k : Consts) (m : List String) (a b : State) (r : ROp) (hnc : r.benign = true) (h : Rel a b) :
+    ExRel Rel (stepR k m a r) (stepR k m b r) := by
+  by_cases hc : r.isConn = true
+  · have hl : r.isLump = true := by simpa [ROp.benign, hc] using hnc
+    cases r with
+    | complump pat i j k1 k2 n =>
+      unfold stepR
+      simp only [ROp.isConn, if_true, stepC]
+      rw [h.p]
+      cases hn : wellNamesLst (names b.p.wells) b.p.wlists m pat with
+      | error e => exact rfl
+      | ok ns =>
+        simp only []
+        by_cases he : n = 0 ∧ (!ns.isEmpty) = true
+        · simp only [he, and_self, if_true]; exact rfl
+        · simp only [he, if_false]
+          refine ⟨rfl, ?_, h.g, fun w => ?_⟩
+          · show List.foldl _ a.c.m ns = (applyGlobal { b.c with m := List.foldl _ b.c.m ns }).m
+            unfold applyGlobal
+            simp only []
+            rw [foldl_foldl_rebuild_comm b.c.g Prod.fst (fun v x => { x with pimult := vmul x.pimult v.2 }) ns _ b.c.m
+              (fun v x => lump_comm i j k1 k2 n v x)]
+            rw [h.cm]; rfl
+          · rcases h.st w with he' | ⟨hn', hs⟩
+            · exact Or.inl he'
+            · refine Or.inr ⟨by rw [← h.p]; exact hn', ?_⟩
+              show allShut (connsOf (List.foldl _ a.c.m ns) w) = true
+              rw [allShut_foldl_rebuild ns _ (by intro x; split <;> rfl)]
+              exact hs
+    | _ => simp [ROp.isLump] at hl
+  · have hnc' : r.isConn = false := by simpa using hc
+    unfold stepR
+    simp only [hnc', Bool.false_eq_true, if_false]
+    rw [h.emp_eq, h.p]
+    cases hP : stepP k m (emp b.c) b.p r with
+    | error e => exact rfl
+    | ok v =>
+      obtain ⟨p', ws⟩ := v
+      refine ⟨rfl, h.cm, h.g, fun w => ?_⟩
+      simp only []
+      rcases h.st w with he | ⟨hn, hs⟩
+      · exact Or.inl (statusOf_applyWrites_congr _ _ _ _ he)
+      · refine Or.inr ⟨stepP_names k m _ b.p r p' ws hP w ?_, hs⟩
+        rw [← h.p]; exact hn
+
+/-- A body keyword without records that open or shut connections and without WPIMULT. -/
 def noConnKw : CKw → Bool
-  | .ops _ rs => rs.all fun r => !r.isConn
+  | .ops _ rs => rs.all ROp.benign
   | _ => true
 
-theorem Rel_runOps (k : Consts) (m : List String) (rs : List ROp) (hnc : (rs.all fun r => !r.isConn) = true) (a b : State)
+theorem Rel_runOps (k : Consts) (m : List String) (rs : List ROp) (hnc : rs.all ROp.benign = true) (a b : State)
     (h : Rel a b) : ExRel Rel (runOps k m a rs) (runOps k m b rs) := by
   induction rs generalizing a b with
   | nil => exact h
   | cons r rs ih =>
-    simp only [List.all_cons, Bool.and_eq_true, Bool.not_eq_true'] at hnc
+    simp only [List.all_cons, Bool.and_eq_true] at hnc
     simp only [runOps]
     have := Rel_stepR k m a b r hnc.1 h
-    have hrs : (rs.all fun r => !r.isConn) = true := hnc.2
     cases ha : stepR k m a r with
     | error e =>
       cases hb : stepR k m b r with
@@ -681,7 +810,7 @@ theorem Rel_runOps (k : Consts) (m : List String) (rs : List ROp) (hnc : (rs.all
     | ok a' =>
       cases hb : stepR k m b r with
       | error e' => rw [ha, hb] at this; exact this.elim
-      | ok b' => rw [ha, hb] at this; exact ih hrs a' b' this
+      | ok b' => rw [ha, hb] at this; exact ih hnc.2 a' b' this
 
 theorem Rel_handle (k : Consts) (m : List String) (kw : CKw) (hnc : noConnKw kw = true) (a b : State) (h : Rel a b) :
     ExRel Rel (handle k m a kw) (handle k m b kw) := by
@@ -739,16 +868,16 @@ theorem Rel_close {a b : State} (h : Rel a b) : Sim (closeBlock a) (closeBlock b
 
 /-! ### one application equals inlining -/
 
-theorem setPat_isConn (w : String) (r : ROp) : (r.setPat w).isConn = r.isConn := by
+theorem setPat_benign (w : String) (r : ROp) : (r.setPat w).benign = r.benign := by
   cases r <;> rfl
 
-theorem substOp_noConn (ws : List String) (r : ROp) (h : r.isConn = false) : ∀ x ∈ substOp ws r, x.isConn = false := by
+theorem substOp_noConn (ws : List String) (r : ROp) (h : r.benign = true) : ∀ x ∈ substOp ws r, x.benign = true := by
   intro x hx
   unfold substOp at hx
   split at hx
   · simp only [List.mem_map] at hx
     obtain ⟨w, _, hw⟩ := hx
-    rw [← hw, setPat_isConn]; exact h
+    rw [← hw, setPat_benign]; exact h
   · simp only [List.mem_singleton] at hx; rw [hx]; exact h
 
 theorem substBody_noConn (ws : List String) (body : List CKw) (h : body.all noConnKw = true) :
@@ -761,7 +890,7 @@ theorem substBody_noConn (ws : List String) (body : List CKw) (h : body.all noCo
     refine ⟨?_, ih h.2⟩
     cases kw with
     | ops n rs =>
-      simp only [substKw, noConnKw, List.all_eq_true, List.mem_flatMap, Bool.not_eq_true'] at h ⊢
+      simp only [substKw, noConnKw, List.all_eq_true, List.mem_flatMap] at h ⊢
       rintro x ⟨r0, hr0, hx⟩
       exact substOp_noConn ws r0 (h.1 r0 hr0) x hx
     | actionx a => rfl
